@@ -24,7 +24,7 @@ equals, byte for byte, the reply stream obtained from direct sockets to the same
 per request from the service the resolver names, GetInfo from the resolver itself - and, after the client closes \
 its side, the bridge exits with status 0. Variant `close right after the last request`: only exit status 0 and \
 `stdout is a prefix of the expected stream` are asserted. Further variants: the service spells its JSON with blanks; the client closes while a 300 ms reply is pending; the client hangs up altogether (stdin and stdout) while a 400 ms reply is pending - exit status 0 in every mode; bytes that arrive only after the client closed its side make the session slow (twice in a row: stuck); in the three copying modes the client closes its sending side while the service is busy with a 4 s call: the bridge stops (more than 2.5 s, twice in a row, is waiting for the service). Non-trivial: a session that switches target services, \
-streams, or upgrades; distinct by (mode, sequence, client behaviour).";
+streams, or upgrades; distinct by (mode, sequence, client behaviour). Two sessions of 401 calls in resolver mode (one connection per call) run through a bridge process limited to 128 descriptors.";
 
 #[derive(Clone, Copy, Debug, PartialEq, Eq, Hash)]
 pub enum Mode {
